@@ -232,6 +232,10 @@ def run(R):
                     kinds = ['none']
                 elif val[0] == 'phi':
                     kinds = ['none' if (strip_refs(x)[0] == 'agg' and strip_refs(x)[1].get('variant') == 'None') else 'some' for x in val[1]]
+                # trailers.take().map(|t| Ok(Frame::trailers(t))): the stored trailers if any, else the clean end
+                flush_or_end = is_call(val, name='map') and is_call(strip_refs(val[2][0]), name='take') and mentions_field(val[2][0], 'trailers')
+                if flush_or_end:
+                    kinds = ['none']
                 if 'none' not in kinds:
                     continue
                 # locate the block(s) that produce the None value
@@ -245,7 +249,7 @@ def run(R):
                     n_end += 1
                     g = pf.edge_guards(sb)
                     in_trailer_arm = any(show(tm).startswith('discr(') and 'find_trailers' in show(tm) and tm[2] and any(n == 'Trailer' and v in vals for v, n in tm[2]) for s, vals, tm in g if tm[0] == 'discr')
-                    taken = any(show(tm).startswith('discr(') and 'take(' in show(tm) and 'trailers' in show(tm) and (vals == [0] or vals == ['else']) for s, vals, tm in g)
+                    taken = flush_or_end or any(show(tm).startswith('discr(') and 'take(' in show(tm) and 'trailers' in show(tm) and (vals == [0] or vals == ['else']) for s, vals, tm in g)
                     if in_trailer_arm:
                         R.check(taken, 'C17.R2', 'clean-end@trailer-arm', site(pf, sb), 'after the trailers frame: ends only when no trailers are stored: %r' % taken)
                         continue
@@ -291,6 +295,10 @@ def run(R):
         npark = 0
         for cons, path in rows:
             parks = [bb_ for bb_ in path if pf.term(bb_)['k'] == 'call' and pf.term(bb_).get('name') in ('replace', 'insert', 'get_or_insert') and mentions_field(pf.origin(pf.term(bb_)['args'][0]), 'trailers')]
+            # or a plain store through a reference to the slot: *slot = Some(trailers)
+            parks += [bb_ for bb_ in path for i_, st_ in enumerate(pf.blocks[bb_]['stmts']) if 'p' in st_ and st_['p'].get('pr')
+                      and (lambda v_: v_[0] == 'agg' and v_[1].get('variant') == 'Some')(strip_refs(pf._origin_def(('stmt', bb_, i_, st_['rv']), 0, set())))
+                      and (mirlib.place_fields(st_['p'])[-1:] == ['trailers'] or (st_['p']['pr'] == ['*'] and mentions_field(pf.origin(st_['p']['l']), 'trailers')))]
             takes = [bb_ for bb_ in path if pf.term(bb_)['k'] == 'call' and pf.term(bb_).get('name') == 'take' and mentions_field(pf.origin(pf.term(bb_)['args'][0]), 'trailers')]
             val = pf.ret_on_path(path)
             delivered = has_fn(val, 'trailers', 'Frame') and bool(takes)
